@@ -9,6 +9,17 @@
      (3 13 ty MX k s)     mscalar
      (3 16 ty MX)         mneg
 
+     (3 17 ty MX MY)      PartialEq on matrices: Matrix == Matrix, Matrix == MatrixView,
+                          MatrixView == Matrix, MatrixView == MatrixView (matrix_equality with its
+                          column-major fast path; the views' data_layout() is part of the model) and
+                          tensor_equality on the same data: their common answer (0 b)
+     (3 40 ty op form args..)  ONE operand form of the operator `op` (args as for `(3 op ty args..)`):
+                          op = 1 2 5 11 12 15: form = 8 * lk + 4 * rk + 2 * lb + rb  (lk rk: 0 container,
+                          1 view; lb rb: 0 by value, 1 by reference) evaluated by the transcription of
+                          exactly that impl (Model/ArithForms.v); op = 3 13: form = 4 * k + 2 * lb + sb
+                          (sb: scalar by value / by reference); op = 16: form = 2 * k + lb; op = 17:
+                          form = 0 M == M, 1 M == MV, 2 MV == M, 3 MV == MV
+
      (3 30 fop args..)    IEEE-754 oracle for the case (3 fop _ args..) at f64 (elements are bit
                           patterns).  Floats never reach the model: the line is the constant (1);
                           the harness checks forms, tensor/matrix agreement and the directly
@@ -31,7 +42,8 @@
    (Proofs/C03P.v shows they cannot) the line is (99 r_tt r_tv r_vt r_vv), which no harness
    output equals. *)
 From Coq Require Import List ZArith NArith Bool.
-From EasyML Require Import Base.Sx Model.Shape Model.Tensor Model.Num Model.Numeric Model.Arith.
+From EasyML Require Import Base.Sx Model.Shape Model.Tensor Model.Num Model.Numeric Model.Arith
+     Model.ArithForms.
 Import ListNotations.
 
 Fixpoint sx_eqb (a b : sx) : bool :=
@@ -162,8 +174,86 @@ Definition m_binary (f : moperand R -> moperand R -> outcome (matrix R))
 Definition m_unary (f : moperand R -> outcome (matrix R)) (x : matrix R * mview R) : sx :=
   agree [ soutcome smatrix (f (OM (fst x))); soutcome smatrix (f (OMV (snd x))) ].
 
+(* ---- equality: the layout answered by data_layout() of the operand's view ---- *)
+Definition step_layout (l : mlayout) (s : sx) : mlayout :=
+  match s with
+  | SL (SZ 1%Z :: _) => layout_range l
+  | SL (SZ 2%Z :: _) => layout_reverse l
+  | SL (SZ 3%Z :: _) => layout_transpose l
+  | _ => l
+  end.
+Definition dlayout (s : sx) : mlayout :=
+  match s with
+  | SL [_; _; _; SL steps] => fold_left step_layout steps layout_of_matrix
+  | _ => layout_of_matrix
+  end.
+Definition dematrix (s : sx) : option (@epair R) :=
+  match dmatrix s with Some mv => Some (mv, dlayout s) | None => None end.
+Definition sobool (o : outcome bool) : sx := soutcome sbool o.
+(* the tensor API on the same data: both operands under the names (0, 1) *)
+Definition eq_via_tensor (x y : @epair R) : outcome bool :=
+  tensor_equality2 (neqb ops) (tensor_ref_matrix (snd (fst x)) 0%nat 1%nat)
+                   (tensor_ref_matrix (snd (fst y)) 0%nat 1%nat).
+Definition m_eq_all (x y : @epair R) : sx :=
+  agree [ sobool (m_eq4 (neqb ops) 0 x y); sobool (m_eq4 (neqb ops) 1 x y);
+          sobool (m_eq4 (neqb ops) 2 x y); sobool (m_eq4 (neqb ops) 3 x y);
+          sobool (eq_via_tensor x y) ].
+
+(* ---- (3 40 ty op form ..): one impl ---- *)
+Definition c03_one_form (op : Z) (form : N) (args : list sx) : sx :=
+  match op, args with
+  | 1%Z, [x; y] => match dtensor x, dtensor y with
+                   | Some x, Some y => if (form <? 16)%N then soutcome stensor (t_add16 ops form x y)
+                                       else bad_case
+                   | _, _ => bad_case end
+  | 2%Z, [x; y] => match dtensor x, dtensor y with
+                   | Some x, Some y => if (form <? 16)%N then soutcome stensor (t_sub16 ops form x y)
+                                       else bad_case
+                   | _, _ => bad_case end
+  | 5%Z, [x; y] => match dtensor x, dtensor y with
+                   | Some x, Some y => if (form <? 16)%N then soutcome stensor (t_mul16 ops form x y)
+                                       else bad_case
+                   | _, _ => bad_case end
+  | 3%Z, [x; SZ k; s] =>
+      match dtensor x, ndec ops s with
+      | Some x, Some s => if ((0 <=? k) && (k <=? 3))%Z && (form <? 8)%N
+                          then soutcome stensor (t_scalar8 ops k form x s) else bad_case
+      | _, _ => bad_case
+      end
+  | 11%Z, [x; y] => match dmatrix x, dmatrix y with
+                    | Some x, Some y => if (form <? 16)%N then soutcome smatrix (m_add16 ops form x y)
+                                        else bad_case
+                    | _, _ => bad_case end
+  | 12%Z, [x; y] => match dmatrix x, dmatrix y with
+                    | Some x, Some y => if (form <? 16)%N then soutcome smatrix (m_sub16 ops form x y)
+                                        else bad_case
+                    | _, _ => bad_case end
+  | 15%Z, [x; y] => match dmatrix x, dmatrix y with
+                    | Some x, Some y => if (form <? 16)%N then soutcome smatrix (m_mul16 ops form x y)
+                                        else bad_case
+                    | _, _ => bad_case end
+  | 13%Z, [x; SZ k; s] =>
+      match dmatrix x, ndec ops s with
+      | Some x, Some s => if ((0 <=? k) && (k <=? 3))%Z && (form <? 8)%N
+                          then soutcome smatrix (m_scalar8 ops k form x s) else bad_case
+      | _, _ => bad_case
+      end
+  | 16%Z, [x] => match dmatrix x with
+                 | Some x => if (form <? 4)%N then soutcome smatrix (m_neg4 ops form x) else bad_case
+                 | None => bad_case end
+  | 17%Z, [x; y] => match dematrix x, dematrix y with
+                    | Some x, Some y => if (form <? 4)%N then sobool (m_eq4 (neqb ops) form x y)
+                                        else bad_case
+                    | _, _ => bad_case end
+  | _, _ => bad_case
+  end.
+
 Definition c03_run (op : Z) (args : list sx) : sx :=
   match op, args with
+  | 17%Z, [x; y] => match dematrix x, dematrix y with
+                    | Some x, Some y => m_eq_all x y | _, _ => bad_case end
+  | 40%Z, SZ op' :: form :: rest =>
+      match dN form with Some form => c03_one_form op' form rest | None => bad_case end
   | 1%Z, [x; y] => match dtensor x, dtensor y with
                    | Some x, Some y => t_binary stensor (t_add ops) x y | _, _ => bad_case end
   | 2%Z, [x; y] => match dtensor x, dtensor y with
